@@ -196,6 +196,65 @@ def l1_random(ctx, n_expr, dis):
     return stats
 
 
+def array_index_tie(ctx, dis):
+    """`arrayIndex` (Lean model of the simulator's array select) against the REAL `Evaluator.eval` / `assign` on an
+    `_ArrayProxy`, exhaustively: 1-6 choices x key expressions (unsigned / signed signals of 1-4 bits, `~x`, `-x`,
+    `a - b`) x every valuation.  Negative / beyond-range keys are compared once C01-array-key-unmasked is fixed."""
+    from migen import Signal, Array
+    fixed = L.array_key_fixed()
+    n_cmp = 0
+    lines, metas = [], []
+    for n in range(1, 7):
+        for w, sgn in ((1, False), (2, False), (3, False), (4, False), (1, True), (2, True), (3, True), (4, True)):
+            x = Signal((w, sgn))
+            b = Signal(2)
+            for kname, key in (("x", x), ("~x", _Operator("~", [x])), ("-x", _Operator("-", [x])), ("x-b", _Operator("-", [x, b]))):
+                from migen.fhdl.bitcontainer import value_bits_sign
+                kw_, ksg = value_bits_sign(key)
+                choices = [Signal(8, reset=10 + i) for i in range(n)]
+                proxy = Array(choices)[key]
+                ev = Evaluator([], {})
+                keys, real_r, real_w = [], [], []
+                for xv in (range(-(1 << (w - 1)), 1 << (w - 1)) if sgn else range(1 << w)):
+                    for bv in (range(4) if kname == "x-b" else [0]):
+                        ev.signal_values = {x: xv, b: bv}
+                        kv = ev.eval(key)
+                        if not fixed and (kv < 0 or truncate(kv, kw_, ksg) != kv):
+                            continue              # region of the (not yet repaired) finding: key not masked to its width
+                        try:
+                            r_ = ev.eval(proxy) - 10
+                            ev.modifications.clear()
+                            ev.assign(proxy, 99)
+                            wsel = [i for i, c_ in enumerate(choices) if c_ in ev.modifications]
+                            ev.modifications.clear()
+                        except Exception as ex:
+                            dis.append(Dis("array-index", n=n, key=kname, key_width=kw_, key_signed=ksg, key_value=kv,
+                                           error=repr(ex)[:200], what="the real Evaluator raises on an Array access"))
+                            return n_cmp
+                        keys.append(kv)
+                        real_r.append(r_)
+                        real_w.append(wsel)
+                if keys:
+                    lines.append("arr %d %d %d ; %s" % (kw_, 1 if ksg else 0, n, " ".join(map(str, keys))))
+                    metas.append((n, kname, kw_, ksg, keys, real_r, real_w))
+    answers = ctx.lean.call_batch(lines)
+    for (n, kname, kw_, ksg, keys, real_r, real_w), ans in zip(metas, answers):
+        if ans.startswith("bad"):
+            dis.append(Dis("driver", case="arr", answer=ans[:100]))
+            continue
+        for kv, rr, rw, m_ in zip(keys, real_r, real_w, map(int, ans.split())):
+            n_cmp += 1
+            if rr != m_ or rw != [m_]:
+                dis.append(Dis("array-index", n=n, key=kname, key_width=kw_, key_signed=ksg, key_value=kv, lean=m_,
+                               real_read=rr, real_write=rw,
+                               what="Lean arrayIndex differs from the choice the real Evaluator reads / writes"))
+                return n_cmp
+    ctx.cov.add_cases("array select: Lean arrayIndex vs the real Evaluator (eval and assign of an _ArrayProxy), exhaustive "
+                      "(%s keys)" % ("negative / over-range / signed" if fixed else "non-negative"), n_cmp, n_cmp, exhaustive=True)
+    ctx.log("array select tie: %d comparisons (%s)" % (n_cmp, "full key domain" if fixed else "non-negative keys only: C01-array-key-unmasked not listed fixed"))
+    return n_cmp
+
+
 def l1_negative_positions(ctx, dis):
     """Directed audit of `Evaluator.eval`, branch by branch: in EVERY operand position of every node kind the
     Evaluator implements (unary / binary / shift / comparison operators, Mux condition and branches, Cat elements at
@@ -2281,6 +2340,7 @@ def correspond(ctx):
     corpus_run(ctx, dis)
     lowering_arith(ctx, 3000 if quick else 30000, dis)
     l1_negative_positions(ctx, dis)
+    array_index_tie(ctx, dis)
     if len(dis) <= 10:
         l1_random(ctx, 1500 if quick else 12000, dis)
     if len(dis) <= 10:
@@ -3125,8 +3185,7 @@ def candidate_probe_sim_cat_target():
 
 
 def candidate_probe_array_negative_key():
-    """CANDIDATE finding (not in known_findings.json, NOT called from probes() until the coordinator lists it; id
-    proposed: C01-array-negative-key).  `Evaluator.eval`, `_ArrayProxy` branch: `idx = min(len(choices) - 1, eval(key))`
+    """Probe of C01-array-key-unmasked (reported to the runner once the id is listed in known_findings.json).  `Evaluator.eval`, `_ArrayProxy` branch: `idx = min(len(choices) - 1, eval(key))`
     does not reduce the key to its width.  A key whose simulator value is a negative Python int (`arr[~x]`, a signed
     key holding a negative value) indexes the Python list from the END (`choices[-2]`) or raises IndexError below
     -len, while the emitted text (`case (~x)` with `default:` = last element) selects by the key's bit pattern.
@@ -3195,6 +3254,14 @@ def probes(ctx):
             out.append(("C01-sim-backend-cat-target", cfails, cwhat))
         elif cfails:
             ctx.cov.notes.append("CANDIDATE-FINDING (not yet in known_findings.json) C01-sim-backend-cat-target: " + cwhat)
+        try:
+            afails, awhat = candidate_probe_array_negative_key()
+        except Exception as ex:
+            afails, awhat = True, "probe crashed: %r" % (ex,)
+        if "C01-array-key-unmasked" in listed:
+            out.append(("C01-array-key-unmasked", afails, awhat))
+        elif afails:
+            ctx.cov.notes.append("CANDIDATE-FINDING (not yet in known_findings.json) C01-array-key-unmasked: " + awhat)
         for fid, what, rep, detail in memory_findings() + [prbs_pause_probe()]:
             if fid in listed:
                 out.append((fid, rep, what + " " + json.dumps(detail)))
